@@ -50,22 +50,32 @@ func genCase(r *lib.Rng, id int64, tier string) drv.Case {
 		nops = r.Range(5, 120)
 	}
 	pubBias := r.Range(1, 3)
+	active := false // the generator's guess (steers the mix only; START may well be rejected)
 	for len(c.Ops) < nops {
 		k := r.Intn(100)
+		startW, stopW := 30, 5
+		if active {
+			startW, stopW = 8, 20
+		}
 		switch {
-		case k < 22:
-			c.Ops = append(c.Ops, drv.GenWC(r, 0, true))
-		case k < 33:
+		case k < startW:
+			o := drv.GenWC(r, 0, true)
+			c.Ops = append(c.Ops, o)
+			if o.L22 || o.L3 || (o.OFF && pm != 0) {
+				active = true
+			}
+		case k < startW+stopW:
 			c.Ops = append(c.Ops, drv.GenWC(r, 1, true))
-		case k < 46:
+			active = false
+		case k < 48:
 			c.Ops = append(c.Ops, drv.GenWC(r, 2, true))
-		case k < 55:
+		case k < 57:
 			c.Ops = append(c.Ops, drv.GenWC(r, 3, true))
-		case k < 61:
+		case k < 63:
 			c.Ops = append(c.Ops, drv.GenWC(r, 4, true))
-		case k < 67:
+		case k < 69:
 			c.Ops = append(c.Ops, drv.GenWC(r, 5, true))
-		case k < 71:
+		case k < 73:
 			l := drv.GenLabel(r)
 			if r.Chance(1, 5) {
 				l = ""
